@@ -327,6 +327,7 @@ RULE = (
     "Oracle = HiGHS LPs on the transformed system (x-space margin, inf-norm distance, convex-weight margin). Assertions only outside "
     "the boundary band (inside margin >= 1e-6, outside distance >= 1e-6 x extent); band outcomes are tallied. Non-trivial = a "
     "near-boundary/boundary target, or a non-Delaunay configuration (unbounded, fewer sources than receptors, dichromat, flat cloud)."
+    " Every membership query is made twice on the same estimator / with the same argument arrays, whose state is byte-compared before and after; a sixth of the bounded under-determined systems have two sources with proportional captures."
 )
 
 PROP = Prop(
